@@ -837,6 +837,34 @@ func (w *World) opWipeKeyBuffer(step int) {
 	}
 }
 
+// opPreHashBurst: the process pre-hashes messages under several hundred
+// distinct domain separators (a wallet that handles many protocols), checked
+// against the model's tagged hash; Schnorr signing afterwards must be what it
+// was before.
+func (w *World) opPreHashBurst(step int) {
+	n := 200 + w.t.Choose("ops", "ph.n", 400)
+	base := w.t.U64("ops", "ph.base")
+	msg := w.genMsg("ops")
+	bad := 0
+	for i := 0; i < n && bad < 3; i++ {
+		name := fmt.Sprintf("verif/%x/%d", base, i)
+		var got []byte
+		var err error
+		po := protect(func() { got, err = bitcoin.PreHashSchnorrMessage(name, msg) })
+		if po.panicked || err != nil {
+			w.r.Violate("C14", "prehash-failed", "PreHashSchnorrMessage", step, "PreHashSchnorrMessage(%q, %d-byte message) failed: err=%v panic=%q", name, len(msg), err, po.panicMsg)
+			bad++
+			continue
+		}
+		if want := ref.TaggedHash(name, msg); !bytes.Equal(got, want) {
+			w.r.Probe("prehash_differs_from_tagged_hash")
+		}
+	}
+	w.r.Hist("%d pre-hash burst: %d distinct domain separators", step, n)
+	w.r.Fault("many_distinct_domain_separators")
+	w.opSchnorr(step)
+}
+
 // ---------------------------------------------------------------- Schnorr (C14)
 
 func (w *World) genMsg(stream string) []byte {
